@@ -75,12 +75,14 @@ pub fn run(report: &mut Report, replay: Option<&Value>) {
         return;
     }
     super::replay_corpus(report, &|r, v| replay_e1(r, v));
-    let hooks = Hooks { classify: &classify, classify_compile: &|_, _| None, compile_failure_is_violation: false };
     let (n_programs, n_payloads, max_corr, rounds) = if report.thorough() { (300, 8, 60, 10) } else { (200, 6, 40, 1) };
     let mut stats = GenStats::default();
     let mut cfg = CaseCfg::default();
     cfg.allow_deny = false;
     cfg.option_percent = 40;
+    let cfg_r = cfg.clone();
+    let rebuild = |tp: &[u8]| build_item(tp, &cfg_r, n_payloads, max_corr, &mut GenStats::default());
+    let hooks = Hooks { classify: &classify, classify_compile: &|_, _| None, compile_failure_is_violation: false, rebuild: Some(&rebuild) };
     for round in 0..rounds {
         let tapes = sample_tapes(report.seed, 0xC03 + round as u64 * 7919, n_programs, 3072);
         let items: Vec<Item> = tapes.iter().filter_map(|tp| build_item(tp, &cfg, n_payloads, max_corr, &mut stats)).collect();
